@@ -126,7 +126,8 @@ def c_cfg(case, M, lt):
     return "(mkcfg %s %s %s %s st %s %s %s %s %s %s %s %s %s)" % (
         kind, c_msg(M["id"], lab, lt.tmo(lab)), C.cb(M["ackable"] in ("sync", "async")), ACK_COQ[case.get("ack_type")],
         {"none": "DNone", "ok": "DOk", "fail": "DFail"}[M["dep"]], C.cb(case["propagate"]), C.cb(M["style"] == "async"),
-        C.cz(dur), c_bout(M["out"]), C.cb(M.get("tie", True)), C.cb(False), C.cb(M.get("save_ok", True)),
+        C.cz(dur), c_bout(M["out"]), C.cb(M.get("tie", True)), C.cb(case.get("executor") == "eager"),
+        C.cb(M.get("save_ok", True)),
         C.cb(bool(M.get("raise_err"))))
 
 
@@ -686,6 +687,8 @@ def gen_recv(r, focus="c02", allow_d10=True):
     nm = r.choice([1, 1, 2, 2, 3, 3, 4, 5, 6])
     case = dict(type="recv", ack_type=r.choice(["when_received", "when_executed", "when_saved", "when_saved", None]),
                 propagate=r.random() < .7, labels=tbl, mws=gen_mws(r, tbl, "recv", p_raise=.04 if focus != "c10" else .06))
+    if r.random() < .3:
+        case["executor"] = r.choice(["eager", "lazy"])
     ids = r.sample(range(10), nm)
     msgs = []
     for i in range(nm):
@@ -724,8 +727,14 @@ def gen_recv(r, focus="c02", allow_d10=True):
             if t is not None and t > 0 and dur == t:
                 M["segs"] = M["segs"] + [1]
             elif t is not None and t <= 0 and M["style"] == "sync":
-                M["style"] = "async"
-                M["segs"] = [s for s in M["segs"]]
+                if case.get("executor") == "eager":
+                    # the body is entered for sure; it must park (virtual time) so that its end is detached
+                    if not M["segs"] or not M["segs"][0]:
+                        M["segs"] = [r.randint(1, 4)] + [s for s in M["segs"] if s]
+                    break
+                if case.get("executor") == "lazy":
+                    break              # the function never runs
+                M["style"] = "async"   # default pool: genuine thread race - not generated
             else:
                 break
     del lt_dummy
@@ -772,7 +781,9 @@ def count_recv(rep, case, per, late):
         if any(e[0] == "body.end" and e[1] == "cancelled" for e in evs):
             rep.count("branch:body-cancelled(async timeout)")
         if "body.start" not in names and "exec.end" in names and M["dep"] != "fail":
-            rep.count("branch:body-never-started(timeout<=0)")
+            rep.count("branch:body-never-started(timeout<=0,%s)" % M["style"])
+        if case.get("executor"):
+            rep.count("executor:" + case["executor"])
         if "dep.saw" in names:
             rep.count("branch:dep-saw-exception")
         for e in evs:
